@@ -358,10 +358,20 @@ def run_subcheck(mod, sc: SubCheck, tier: str, seedval: int, n_examples: int, kn
     except Violation as v:
         case = state["fail"][0] if state["fail"] else None
         violation = {"subcheck": sc.name, "case": to_jsonable(case), "detail": v.detail}
-    except hypothesis.errors.FlakyFailure as e:  # body not deterministic: harness problem
-        raise HarnessError(f"sub-check {sc.name} is flaky: {e}") from e
-    except hypothesis.errors.Flaky as e:
-        raise HarnessError(f"sub-check {sc.name} is flaky: {e}") from e
+    except hypothesis.errors.Flaky as e:  # FlakyFailure is a subclass
+        # The bodies are deterministic functions of the case. If one raised a Violation that does not recur when the
+        # same case is executed again in this process, the code under test carried state from one call to the next
+        # (a process-wide cache, a mutated table): the first observation stands as the violation. Anything else is a
+        # harness problem.
+        if state["fail"] is not None:
+            case, v = state["fail"]
+            violation = {
+                "subcheck": sc.name,
+                "case": to_jsonable(case),
+                "detail": v.detail + " [not reproduced when the same case was executed again in the same process: the code under test keeps state between calls]",
+            }
+        else:
+            raise HarnessError(f"sub-check {sc.name} is flaky: {e}") from e
     ev.wall_s = time.time() - t0
     return ev.to_dict(), violation
 
